@@ -18,14 +18,16 @@ const O_REBUILD: u8 = 2; // into_parts + buffered() again
 const O_DRAIN: u8 = 3; // until_exhausted (terminal)
 const O_BATCH_METHOD: u8 = 4; // a = Iterator method, b = k
 const O_FFWD: u8 = 5; // a = number of next() calls
+const O_CLONE_SWAP: u8 = 6;
 
-static OPS: [OpSpec; 6] = [
+static OPS: [OpSpec; 7] = [
     OpSpec { name: "next", shrink: 0 },
     OpSpec { name: "next_frames_take", shrink: 1 },
     OpSpec { name: "into_parts_rebuild", shrink: 0 },
     OpSpec { name: "drain_until_exhausted", shrink: 0 },
     OpSpec { name: "next_frames_iterator_method", shrink: 2 },
     OpSpec { name: "fast_forward_next", shrink: 1 },
+    OpSpec { name: "clone_swap", shrink: 0 },
 ];
 
 const F_PREFILL: usize = 0;
@@ -36,6 +38,7 @@ const F_PARTIAL_BATCH: usize = 4;
 const F_EMPTY_BATCH: usize = 5;
 const F_REBUILD_NONEMPTY: usize = 6;
 const F_EMPTY_SOURCE: usize = 7;
+const F_SNAPSHOT: usize = 8;
 
 const P_CAP1: usize = 0;
 const P_REFILL_BY_BATCH: usize = 1;
@@ -95,6 +98,9 @@ fn gen_op(r: &mut Rng, cap: usize, done: usize, steps: usize, drain_at_end: bool
     if w[1] > 0 && r.chance(1, 12) {
         return Some(Op::kab(O_BATCH_METHOD, r.range(1, 5), r.range(0, cap as i64 + 1)));
     }
+    if r.chance(1, 30) {
+        return Some(Op::k(O_CLONE_SWAP));
+    }
     if r.chance(1, 5000) {
         return Some(Op::ka(O_FFWD, *r.pick(&[1_000i64, 32_768, 65_537, 70_000])));
     }
@@ -112,7 +118,7 @@ fn gen_op(r: &mut Rng, cap: usize, done: usize, steps: usize, drain_at_end: bool
     })
 }
 
-fn drive<F: TagFrame, S: Signal<Frame = F>>(
+fn drive<F: TagFrame, S: Signal<Frame = F> + Clone>(
     sig: S,
     pulls: Pulls,
     end: Option<u64>,
@@ -212,6 +218,19 @@ fn drive<F: TagFrame, S: Signal<Frame = F>>(
                 } else if k < avail {
                     obs.fault(F_PARTIAL_BATCH);
                 }
+                {
+                    let it = bs.next_frames();
+                    let (lo, hi) = it.size_hint();
+                    check!(
+                        obs,
+                        lo <= avail && hi.map(|h| h >= avail).unwrap_or(true),
+                        "buffered.size-hint",
+                        "next_frames().size_hint() = ({}, {:?}) with {} frames buffered",
+                        lo,
+                        hi,
+                        avail
+                    );
+                }
                 let got: Vec<F> = bs.next_frames().take(k).collect();
                 for g in &got {
                     obs.note(g.bits());
@@ -253,6 +272,12 @@ fn drive<F: TagFrame, S: Signal<Frame = F>>(
                     check_eq!(obs, got, want, "buffered.frame", "next() during a fast-forward of {} frames", n);
                 }
                 obs.note(n);
+            }
+            O_CLONE_SWAP => {
+                // snapshot/restore: continue on a clone (source position and buffered frames included)
+                obs.fault(F_SNAPSHOT);
+                let c = bs.clone();
+                b = Some(c);
             }
             O_REBUILD => {
                 let (s, rb) = b.take().unwrap().into_parts();
@@ -354,6 +379,7 @@ impl Scenario for BufferedScenario {
             "empty batch (next_frames taken 0)",
             "into_parts + rebuild with frames buffered",
             "empty source",
+            "snapshot: clone taken with frames buffered, the clone is used from then on",
         ]
     }
     fn probes(&self) -> &'static [&'static str] {
